@@ -53,6 +53,12 @@ class MemFS:
         self.oplog = []
         self.barrier_image = {k: bytes(v) for k, v in self.files.items()}
 
+    def persist(self):
+        """Everything written through the file object so far has reached the OS (numpy.memmap seeks / flushes the
+        file object when a map is created, which empties Python's write buffer): later kill points cannot lose it.
+        This is not a logical flush of the store (the header may still be the old one)."""
+        self.barrier()
+
     def crash_images(self, name):
         """Disk images of `name` after each prefix of the un-flushed operations."""
         img = bytearray(self.barrier_image.get(name, b''))
@@ -142,6 +148,7 @@ class MemMap:
         need = offset + int(np.prod(shape)) * self.dtype.itemsize
         if need > len(f.img):
             raise ValueError('mmap length is greater than file size')
+        f.fs.persist()
 
     def _arr(self):
         n = int(np.prod(self.shape))
@@ -154,9 +161,11 @@ class MemMap:
         a = self._arr().copy()
         a[sl] = value
         data = a.tobytes('C')
-        # one assignment = one atomic update of the touched region
+        # one assignment = one atomic update of the touched region, visible in the file at once (shared mapping):
+        # it is part of every later crash image
         self.f.img[self.offset:self.offset + len(data)] = data
         self.f.fs.n_lowlevel += 1
+        self.f.fs.persist()
 
     def __len__(self):
         return self.shape[0]
@@ -313,8 +322,8 @@ def h_store(ctx, n_ops, ops=OPS, configs=None):
                 if len(model) < 2:
                     raise core.Infeasible()
                 store.close()
-                hidden[0] = bs
-                hidden_batches[:] = [model.pop()]
+                hidden[0] += bs
+                hidden_batches[:] = [model.pop()] + hidden_batches
                 history[:] = [(logical(), hidden[0])]
                 store = est.NpyStore(name, bs, n_batches=len(model))
             elif op == 'pickle':
